@@ -659,7 +659,7 @@ def nnls_oracle(ctx, rng, Wa, ba, alpha, La, st, res, spycall, desc, zclass=None
         return None
     why = kkt_why(C, d, x, 1e-10 * vmax * vmax, rel)
     obj = float(np.sum((Wa @ x - ba) ** 2) + alpha ** 2 * np.sum((Leff @ x) ** 2))
-    norm_bad = abs(float(norm) - math.sqrt(obj)) > 0.1 * rel * (math.sqrt(obj) + float(np.linalg.norm(d)))
+    norm_bad = abs(float(norm) - math.sqrt(obj)) > 0.1 * rel * (float(np.linalg.norm(C)) * float(np.linalg.norm(x)) + float(np.linalg.norm(d)))
     if (why or norm_bad) and spycall is not None:
         # is it the wrapper or the external solver?  evaluate the solver's own answer on the system it was handed
         (A_, b_), _, (xs_, rn_) = spycall
@@ -747,7 +747,7 @@ def lsq_judge(ctx, rng, which, M, st, res, calls, desc, lines, checks, kw=None, 
         obj = float(np.sum((Wa @ x - ba) ** 2) + alpha ** 2 * np.sum((Leff @ x) ** 2))
         resid = np.asarray(resid, float)
         if resid.size == 1:
-            if abs(float(resid[0]) - obj) > 0.1 * rel * (obj + float(d @ d)):
+            if abs(float(resid[0]) - obj) > 0.1 * rel * (float(np.linalg.norm(C)) * float(np.linalg.norm(x)) + float(np.linalg.norm(d))) ** 2:
                 ctx.fail('C11:invert_regularised_lstsq:residual-inconsistent', 'reported residual %r but |Wx-b|^2+alpha^2|Lx|^2 = %r' % (float(resid[0]), obj),
                          dict(desc, returned_x=x.tolist()))
             ctx.count('lstsq-residual-reported')
@@ -767,7 +767,8 @@ def lsq_judge(ctx, rng, which, M, st, res, calls, desc, lines, checks, kw=None, 
             if spycall is not None:
                 (A_,), kw_, P = spycall
                 lines.append('svd %d %d %s %s %s' % (m, n, fs(flat(W)), fs(b), fs(np.asarray(P, float).ravel().tolist())))
-                checks.append(('svd', desc, dict(A=A_, x=x, n=n, W=Wa, rel=max(1e-9, rel * 0.1))))
+                checks.append(('svd', desc, dict(A=A_, x=x, n=n, W=Wa, rel=max(1e-9, rel * 0.1),
+                                                 cond=np.abs(np.asarray(P, float)).reshape(n, m) @ np.abs(ba))))
             else:
                 ctx.broke('correspondence', 'C11 stream svd-spy', dict(what='scipy.linalg.pinv called %d times' % len(calls), input=desc))
         g = Wa.T @ (Wa @ x - ba) if x.shape == (n,) else np.zeros(1)
@@ -816,7 +817,7 @@ def lsq_compare(ctx, lines, checks):
         else:
             if not np.array_equal(np.asarray(k['A'], float), k['W']):
                 bad = 'matrix handed to scipy.linalg.pinv is not W'
-            elif not vec_close(k['x'], t, k.get('rel', 1e-9)):
+            elif k['x'].shape != (n,) or np.any(np.abs(k['x'] - np.array(t)) > k.get('rel', 1e-9) * (np.abs(k['x']) + 4.0 * k['cond'])):
                 bad = 'returned x %r is not pinv(W) b = %r' % (k['x'].tolist(), t)
         if bad:
             ctx.disagreements += 1
